@@ -1054,10 +1054,21 @@ pub const SV_TUNE_PARAMS_DEFAULT: SvTuneParams = SvTuneParams {
 };
 """)
 
+def int_sized(member):
+    # Snapshot objects are `#[repr(C)]` structs that `encode` reinterprets as a
+    # slice of `i32`, so every field must occupy exactly one `i32`. A Rust
+    # `bool` is a single byte followed by padding; represent booleans as
+    # integers restricted to 0 and 1 instead.
+    if isinstance(member, NetBool):
+        return NetIntRange(member.name, 0, 1, default=member.default)
+    if isinstance(member, NetArray):
+        return NetArray(member.name, int_sized(member.inner), member.count)
+    return member
+
 class NetObject(Struct):
     const_type = "u16"
     def __init__(self, name, values, ex=None, validate_size=True):
-        super().__init__(name, values, ex)
+        super().__init__(name, [int_sized(v) for v in values], ex)
         if not validate_size:
             self.attributes.add("dont_validate_size")
     def emit_definition(self):
